@@ -101,4 +101,42 @@ CHECKS = {
                 "float32 alphabets keep partial sums exact in float64. "
                 "uint64 averaging above 2^53 is a recorded known finding.",
     },
+    "C05": {
+        "engine": "E-STATE", "level": "model_checking",
+        "technique": "explicit-state BFS over the real sharded writer "
+                     "(all store orders of all subsets, full-state hashing), "
+                     "close/reopen/fetch oracle in every state",
+        "text": "For every configuration (grids up to 6 chunks quick / 9 "
+                "thorough incl. non-power-of-two and ragged grids x 32 bit "
+                "triples x 4 index/data encoding pairs) the real "
+                "ShardedFileAccessor is explored breadth-first: transition = "
+                "store one not-yet-stored chunk, state = stored subset + "
+                "hash of every MiniShard field, so all n! orders of all 2^n "
+                "subsets are covered exactly. In every state a deep copy is "
+                "closed, reopened by a fresh accessor and every grid chunk "
+                "fetched (stored = exact bytes, unstored = error or empty); "
+                "shard files must be byte-identical per subset across "
+                "orders and across the in-memory and on-disk buffering "
+                "strategies (on-disk replayed per subset, ascending and "
+                "descending, all permutations for <= 4 chunks).",
+        "note": "One write session per scale, each chunk stored once; "
+                "minishards of at most 9 chunks; no separate model - the "
+                "transition relation is the implementation.",
+    },
+    "C04": {
+        "engine": "E-STATE", "level": "model_checking",
+        "technique": "explicit-state BFS over the real sharded writer; "
+                     "every closed state parsed by a specification-only "
+                     "reader",
+        "text": "Same state space as C05 with bit triples up to shard_bits "
+                "70 / preshift 62; in every closed state every chunk is "
+                "looked up by mc/oracle/shard_spec.py (written from the "
+                "format text, Python ints): file name from the id, entry at "
+                "the minishard's slot, strictly increasing ids, ranges "
+                "inside the file and pairwise disjoint, RFC 1952 gzip, "
+                "exact bytes, no unexpected files.",
+        "note": "Trusts DESIGN.md App. A.1 as the specification; zlib "
+                "framing of 'gzip' is a recorded known finding (pinned by an "
+                "existing unit test).",
+    },
 }
